@@ -113,6 +113,9 @@ class Holder(object):
         self.run = run
         self.t = t
 
+    def __len__(self):          # an empty container-like receiver: falsy, but a perfectly good instance to bind
+        return 0
+
     @asynq.asynq()
     def body(self):
         return (yield from self.run.interp(self.t))
